@@ -266,7 +266,9 @@ func (c *Conn) SendRaw(b []byte) error {
 
 // WriteRaw writes raw bytes without recording them (the caller records the packets with NoteSent).
 func (c *Conn) WriteRaw(b []byte) error {
-	c.c.SetWriteDeadline(time.Now().Add(3 * time.Second))
+	// the pipe hands bytes over one reader buffer at a time: a large packet needs many rendez-vous with the broker's reader,
+	// which can take long on a loaded machine — the allowance grows with the size (a 64 KiB CONNECT gets 11 s)
+	c.c.SetWriteDeadline(time.Now().Add(3*time.Second + time.Duration(len(b)/8192)*time.Second))
 	_, err := c.c.Write(b)
 	return err
 }
